@@ -44,8 +44,61 @@ def run(ctx):
         "NOT decided: equality of the re-parsed interface for all parameter lists; nothing about types, "
         "descriptions or default values (value level)",
     ]
-    for rule in (_align_parse, _align_emit, _shape, _keywords, _optional, _falsy, _order_rule, _escape, _exacttype):
+    for rule in (_align_parse, _align_emit, _shape, _keywords, _optional, _falsy, _order_rule, _escape, _exacttype, _hashable):
         ctx.section(rule, ctx, index)
+
+
+def _hashable(ctx, index, rule="C02.hashable"):
+    """
+    The class parser keeps container defaults as Python objects (`opts: dict = {}` -> default {}; `[]`, `set()` alike
+    — and `= {}` is exactly what the class emitter writes for a dict-typed parameter without default). A membership
+    test of a default in a SET or FROZENSET hashes it: `{}` raises TypeError: unhashable type, and the class form of
+    such an interface cannot be parsed back at all. Against a tuple (`in none_types`) the test compares and is fine.
+    """
+    from ..defuse import expand_aliases
+
+    def default_valued(e):
+        # the `default` slot of a parameter entry (a bare local called `default` is usually text cut out of a docstring)
+        if isinstance(e, ast.Subscript) and isinstance(e.slice, ast.Constant):
+            return e.slice.value == "default"
+        if isinstance(e, ast.Call) and isinstance(e.func, ast.Attribute) and e.func.attr == "get" and e.args and isinstance(e.args[0], ast.Constant):
+            return e.args[0].value == "default"
+        return False
+
+    def hashing(e):
+        if isinstance(e, (ast.Set, ast.SetComp)):
+            return True
+        return isinstance(e, ast.Call) and norm(e.func) in ("frozenset", "set")
+
+    # the class parser does produce container defaults: the table of empty displays in cdd.class_.parse
+    cp = index.func("cdd.class_.parse.class_")
+    from ..core import RefGraph
+    from ..region import Region
+
+    containers = any(
+        isinstance(n, ast.Dict) and any(isinstance(v, (ast.Dict, ast.List, ast.Set)) or (isinstance(v, ast.Call) and norm(v.func) == "set") or (isinstance(v, ast.IfExp) and isinstance(v.body, ast.Dict)) for v in n.values)
+        for _g, n in Region(index, RefGraph(index), cp, allow_passed=True).nodes()
+    )
+    n_tests = 0
+    for f in index.nontest_funcs():
+        for n in iter_own(f.node):
+            if isinstance(n, ast.Compare) and len(n.ops) == 1 and isinstance(n.ops[0], (ast.In, ast.NotIn)) and default_valued(n.left):
+                n_tests += 1
+                right = expand_aliases(f, n.comparators[0])
+                ok = not (hashing(right) and containers)
+                ctx.ob(
+                    rule,
+                    f,
+                    n,
+                    ok,
+                    ""
+                    if ok
+                    else "`{}` hashes the default: the class parser keeps `{{}}` / `[]` / `set()` defaults as objects (and `= {{}}` is what "
+                    "the class emitter writes for a dict-typed parameter without default), so parsing such a class raises "
+                    "TypeError: unhashable type".format(short(n, 70)),
+                )
+    ctx.count("membership_tests_on_defaults", n_tests)
+    ctx.count("class_parser_keeps_container_defaults", int(containers))
 
 
 def _exacttype(ctx, index, rule="C02.exacttype"):
